@@ -475,3 +475,25 @@ def _execute_once(scn, plan, keep, wall_cap, binary, want_trace):
 
 def cleanup_scratch():
     shutil.rmtree(os.path.join(scratch_root(), "p%d" % os.getpid()), ignore_errors=True)
+
+
+def purge_stale_scratch():
+    """remove run directories of driver processes that no longer exist (pool workers are terminated without atexit)"""
+    root = scratch_root()
+    try:
+        names = os.listdir(root)
+    except FileNotFoundError:
+        return
+    for n in names:
+        m = re.match(r"^p(\d+)$", n)
+        if m and not os.path.exists("/proc/%s" % m.group(1)):
+            shutil.rmtree(os.path.join(root, n), ignore_errors=True)
+    jd = os.path.join(root, "journals")
+    if os.path.isdir(jd):
+        for n in os.listdir(jd):
+            m = re.search(r"-(\d+)\.journal$", n)
+            if m and not os.path.exists("/proc/%s" % m.group(1)):
+                try:
+                    os.unlink(os.path.join(jd, n))
+                except OSError:
+                    pass
